@@ -89,6 +89,10 @@ def gen_spec(rng, kind=None):
         a = rng.randint(1, max(1, spec["polls"] - 3))
         spec["wait_completion"] = True
         spec["stop_window"] = [a, a + rng.randint(1, 4)]
+    # fault injection: the n-th backend._pause_trial raises OSError. Legal outcomes: the exception ends run()
+    # (nothing is resumed afterwards) or the trial is paused with its checkpoint intact.
+    if kind in HB_KINDS + ["sync"] and spec["delete_checkpoints"] and rng.random() < 0.25:
+        spec["pause_fault"] = sorted({rng.randint(1, 8) for _ in range(rng.randint(1, 2))})
     if kind in HB_KINDS:
         # PASHA supports a single bracket only (hyperband_pasha.py raises IndexError with 2: outside this property)
         spec.update(max_t=rng.choice([9, 9, 27, 8]), rf=rng.choice([2, 3]),
@@ -721,6 +725,8 @@ def run(ctx, replay=None):
             ctx.h("pbt", "clone_source_redrawn",
                   sum(1 for a, b in zip(log, log[1:]) if a[0] == "explore" and b[0] == "start"))
             ctx.h("pbt", "clone_decisions", sum(1 for a, b in zip(log, log[1:]) if a[0] == "explore" and b[0] == "decision"))
+        if spec.get("pause_fault"):
+            ctx.h("pause_fault", "runs_with_injected_fault_hit", int(any(e[0] == "pause_fault" for e in log)))
         if extra["crash"]:
             ctx.h("tuner_exception", extra["crash"][:80])
         ctx.sample(dict(spec=spec, log_head=[list(e) for e in log[:25]], stats=stats), limit=3)
